@@ -12,6 +12,7 @@ import (
 	"encoding/hex"
 	"fmt"
 	"os"
+	"runtime"
 	"sort"
 	"strconv"
 	"strings"
@@ -40,12 +41,14 @@ type explorer struct {
 	crashCases, cancelCases, crashDup, cancDup atomic.Int64
 	questions, belowErr, belowSame             atomic.Int64
 	pruneTransitions, multiBatchPrunes         atomic.Int64
+	midCases                                   atomic.Int64
 }
 
 var (
 	reportedKeys sync.Map
 	crashSeen    sync.Map
 	cancelSeen   sync.Map
+	midSeen      sync.Map
 	outMu        sync.Mutex
 	outcomes     = map[string]int{}
 )
@@ -69,6 +72,15 @@ func (x *explorer) absorb(st *cmpStats) {
 		outcomes[k] += v
 	}
 	outMu.Unlock()
+}
+
+var bubbleSem = make(chan struct{}, runtime.NumCPU())
+
+// bubble runs f in its own synctest bubble; at most NumCPU bubbles run at a time.
+func (x *explorer) bubble(f func()) {
+	bubbleSem <- struct{}{}
+	defer func() { <-bubbleSem }()
+	synctest.Test(x.t, func(*testing.T) { f() })
 }
 
 func newStats() *cmpStats { return &cmpStats{outcomes: map[string]int{}} }
@@ -99,7 +111,7 @@ type resA struct {
 // successor's state key.
 func (x *explorer) phaseA(p path) (out resA) {
 	out.path = p
-	synctest.Test(x.t, func(*testing.T) {
+	x.bubble(func() {
 		w, ok := x.replay(p, nil)
 		defer w.close()
 		x.replays.Add(1)
@@ -171,14 +183,32 @@ type resB struct {
 // phaseB: the expensive checks on a newly discovered state (reached by p).
 func (x *explorer) phaseB(p path) (out resB) {
 	cfg := x.cfg
-	synctest.Test(x.t, func(*testing.T) {
-		w, ok := x.replay(p, func(w *world) func(int) { return func(int) { w.fdb.SnapshotAll() } })
+	x.bubble(func() {
+		st := newStats()
+		w, ok := x.replay(p, func(w *world) func(int) {
+			return func(c0 int) {
+				w.fdb.SnapshotAll()
+				// (0) a reader that runs concurrently with the prune, right after each of its batch commits: the floor
+				// the node publishes at that moment must already cover everything the committed batches removed
+				w.fdb.OnCommit(func(c faultdb.Commit) {
+					bf, sf := floors(w.fdb, w.floor)
+					ih, th := faultdb.Hash(w.fdb.Inner()), faultdb.Hash(w.twinDB)
+					key := fmt.Sprintf("%s|%x|%x|%d|%d", cfg, ih[:16], th[:16], bf, sf)
+					if _, dup := midSeen.LoadOrStore(key, true); dup {
+						return
+					}
+					x.midCases.Add(1)
+					w.check("mid-prune (concurrent reader)", w.bc, w.fdb.Inner(), bf, sf, w.twin, w.twinDB, w.canon, nil, st,
+						map[string]any{"after_prune_commit": c.N - c0})
+				})
+			}
+		})
+		w.fdb.OnCommit(nil)
 		defer w.close()
 		x.replays.Add(1)
 		if !ok {
 			panic("phaseB: path not replayable: " + p.String())
 		}
-		st := newStats()
 		defer func() { x.absorb(st); x.report(p, w.problems) }()
 
 		// (1) the long-lived node, as it is now
@@ -258,7 +288,7 @@ func (w *world) restartStoreRevert(tag string, img *memory.Database, st *cmpStat
 		w.problem(tag+": reopen fails"+backend(ns), map[string]any{"err": err.Error()})
 		return
 	}
-	tw := chain.NewNode(td, ns)
+	tw := chain.NewNode(fastStore{td}, ns)
 	parent := w.canon[w.head()]
 	next := nextEntry(parent, max(uint64(time.Now().Unix()), parent.Block.Timestamp)+blockSec)
 	if err := chain.StoreSync(tw, next); err != nil {
@@ -290,7 +320,7 @@ func (w *world) restartStoreRevert(tag string, img *memory.Database, st *cmpStat
 // phaseCancel: same path, but the service context is cancelled right after the j-th batch commit of the last prune.
 func (x *explorer) phaseCancel(p path, b resB, j int) {
 	cfg := x.cfg
-	synctest.Test(x.t, func(*testing.T) {
+	x.bubble(func() {
 		w, ok := x.replay(p, func(w *world) func(int) {
 			return func(c0 int) {
 				w.fdb.OnCommit(func(c faultdb.Commit) {
@@ -462,12 +492,11 @@ func TestCheck(t *testing.T) {
 		bases[ns] = b
 	}
 	xs := make([]*explorer, len(cfgs))
-	outer := 4
-	ev.Par(len(cfgs), outer, func(i int) {
+	ev.Par(len(cfgs), len(cfgs), func(i int) {
 		x := &explorer{r: r, t: t, cfg: cfgs[i], base: bases[cfgs[i].NewState], depth: depth}
 		xs[i] = x
 		t0 := time.Now()
-		x.explore(5)
+		x.explore(runtime.NumCPU())
 		r.Sample(map[string]any{"config": x.cfg.String(), "states": x.states.Load(), "transitions": x.transitions.Load(),
 			"replays": x.replays.Load(), "prune_transitions": x.pruneTransitions.Load(), "multi_batch_prunes_interrupted": x.multiBatchPrunes.Load(),
 			"crash_points": x.crashCases.Load(), "cancel_points": x.cancelCases.Load(), "seconds": int(time.Since(t0).Seconds())})
@@ -487,6 +516,7 @@ func TestCheck(t *testing.T) {
 		tot.belowSame.Add(x.belowSame.Load())
 		tot.pruneTransitions.Add(x.pruneTransitions.Load())
 		tot.multiBatchPrunes.Add(x.multiBatchPrunes.Load())
+		tot.midCases.Add(x.midCases.Load())
 	}
 	for k, v := range outcomes {
 		for i := 0; i < min(v, 1); i++ {
@@ -502,6 +532,7 @@ func TestCheck(t *testing.T) {
 	r.Set("executions", tot.replays.Load())
 	r.Set("prune_transitions", tot.pruneTransitions.Load())
 	r.Set("multi_batch_prunes_interrupted", tot.multiBatchPrunes.Load())
+	r.Set("mid_prune_reader_points_checked", tot.midCases.Load())
 	r.Set("crash_points_checked", tot.crashCases.Load())
 	r.Set("crash_points_identical_to_checked", tot.crashDup.Load())
 	r.Set("cancel_points_checked", tot.cancelCases.Load())
